@@ -64,7 +64,182 @@ objs=[(-2.0*f - (-3.5) + f*(-1.0) - -f*f/(-0.5))*v*dx]'''),
 ]
 
 
+def py_tokens(text):
+    """the real numba text as normalised tokens (same spelling as PyFmt.prender)."""
+    import io
+    import tokenize
+
+    import ffx
+    out = []
+    toks = [t for t in tokenize.generate_tokens(io.StringIO(text).readline) if t.type not in (tokenize.NEWLINE, tokenize.ENDMARKER, tokenize.NL)]
+    i = 0
+    while i < len(toks):
+        t = toks[i]
+        if t.type == tokenize.NAME and i + 2 < len(toks) and toks[i + 1].string == "." and t.string in ("np", "math"):
+            out.append("f:" + toks[i + 2].string)
+            i += 3
+            continue
+        if t.type == tokenize.NAME:
+            out.append(t.string if t.string in ("not", "and", "or", "if", "else") else t.string)
+        elif t.type == tokenize.NUMBER:
+            if t.string.endswith("j"):
+                out.append("c")
+            elif all(ch.isdigit() for ch in t.string):
+                out.append("i" + t.string)
+            else:
+                m, e = ffx.dyadic(float(t.string))
+                out.append(f"n{m}e{e}")
+        else:
+            out.append(t.string)
+        i += 1
+    return " ".join(out)
+
+
+def py_tree(node):
+    """Python's own reading of the text (ast) as a tuple tree comparable with PyFmt.pcanon."""
+    import ast
+
+    import ffx
+    if isinstance(node, ast.Constant):
+        if isinstance(node.value, bool):
+            raise ValueError("bool constant")
+        if isinstance(node.value, int):
+            return ("ELitI", node.value)
+        if isinstance(node.value, complex):
+            return ("ELitC",)
+        return ("ELitF",) + ffx.dyadic(float(node.value))
+    if isinstance(node, ast.Name):
+        return ("ESym", node.id)
+    if isinstance(node, ast.Subscript):
+        idx = node.slice.elts if isinstance(node.slice, ast.Tuple) else [node.slice]
+        return ("EAcc", node.value.id, [py_tree(i) for i in idx])
+    if isinstance(node, ast.UnaryOp):
+        if isinstance(node.op, ast.USub):
+            return ("ENeg", py_tree(node.operand))
+        if isinstance(node.op, ast.Not):
+            return ("ENot", py_tree(node.operand))
+    if isinstance(node, ast.BinOp):
+        op = {ast.Add: "OAdd", ast.Sub: "OSub", ast.Mult: "OMul", ast.Div: "ODiv"}[type(node.op)]
+        return ("EBin", op, py_tree(node.left), py_tree(node.right))
+    if isinstance(node, ast.Compare):
+        if len(node.ops) != 1:
+            return ("CHAINED",)
+        op = {ast.Lt: "OLT", ast.Gt: "OGT", ast.LtE: "OLE", ast.GtE: "OGE", ast.Eq: "OEQ", ast.NotEq: "ONE"}[type(node.ops[0])]
+        return ("EBin", op, py_tree(node.left), py_tree(node.comparators[0]))
+    if isinstance(node, ast.BoolOp):
+        op = "OAnd" if isinstance(node.op, ast.And) else "OOr"
+        acc = py_tree(node.values[0])
+        for x in node.values[1:]:
+            acc = ("EBin", op, acc, py_tree(x))
+        return acc
+    if isinstance(node, ast.IfExp):
+        return ("ECond", py_tree(node.test), py_tree(node.body), py_tree(node.orelse))
+    if isinstance(node, ast.Call):
+        return ("ECall", node.func.attr, [py_tree(a) for a in node.args])
+    raise ValueError(type(node).__name__)
+
+
+def pcanon_py(e):
+    """harness twin of PyFmt.pcanon (cross-checked against it in Coq)."""
+    import p_c16
+    k = e[0]
+    if k == "ELitC":
+        return ("ELitC",)
+    if k == "EAcc":
+        return ("EAcc", e[1], [pcanon_py(i) for i in e[2]])
+    if k in ("ENeg", "ENot"):
+        return (k, pcanon_py(e[1]))
+    if k == "EBin":
+        return ("EBin", e[1], pcanon_py(e[2]), pcanon_py(e[3]))
+    if k in ("ESum", "EProd"):
+        op = "OAdd" if k == "ESum" else "OMul"
+        args = [pcanon_py(a) for a in e[1]]
+        acc = args[0]
+        for a in args[1:]:
+            acc = ("EBin", op, acc, a)
+        return acc
+    if k == "ECall":
+        return ("ECall", e[1], [pcanon_py(a) for a in e[2]])
+    if k == "ECond":
+        return ("ECond", pcanon_py(e[1]), pcanon_py(e[2]), pcanon_py(e[3]))
+    return p_c16.canon_py(e)
+
+
+def printer_correspondence(v, tier, seed):
+    """the real numba Formatter against the printer model PyFmt.fmtPy (token for token) and against
+    Python's own parser (ast.parse of the text = pcanon of the tree), on generated expression trees."""
+    import ast
+    import os
+    import random
+    import re
+
+    import ffx
+    import p_c16
+    from ffcx.codegeneration.numba.formatter import Formatter as NF
+    rng = random.Random(seed)
+    fmt = NF("float64")
+    trees = p_c16.exhaustive_depth2()
+    for _ in range(300 if tier == "quick" else 4000):
+        trees.append(p_c16.gen_arith(rng, rng.choice([2, 3, 4, 5])) if rng.random() < 0.75 else p_c16.gen_cond(rng, rng.choice([1, 2, 3])))
+    tuples, texts, keep = [], [], []
+    for t in trees:
+        try:
+            txt = fmt(t)
+        except Exception:  # noqa: BLE001  (e.g. functions the numba backend rejects)
+            continue
+        tuples.append(p_c16._conv(t))
+        texts.append(txt)
+    path = os.path.join(common.GEN, "C18_cases.v")
+    txt = ("From Coq Require Import ZArith List String Uint63.\nFrom FFCX Require Import LN Enc Tok Render PyFmt.\nImport ListNotations.\nOpen Scope string_scope.\n"
+           "Set Printing Width 100000000.\nSet Printing Depth 100000000.\n")
+    txt += "Definition cases : list expr := [\n " + ";\n ".join(ffx.coq_expr(t) for t in tuples) + "].\n"
+    txt += 'Eval vm_compute in String.concat "@@" (map (fun e => prender (fmtPy e)) cases).\n'
+    txt += "Eval vm_compute in map (fun e => (wfPy e, negb (has_clit e))) cases.\n"
+    open(path, "w").write(txt)
+    rc, so, se = common.coqc_many([path], timeout=900)[path]
+    for ext in (".vo", ".vok", ".vos", ".glob"):
+        try:
+            os.remove(path[:-2] + ext)
+        except OSError:
+            pass
+    st = {"trees": len(tuples), "inside_fragment": 0, "token_equal": 0, "python_parser_agrees": 0}
+    m1 = re.search(r'=\s*"(.*?)"\s*:\s*string', so, re.S)
+    m2 = re.search(r"=\s*\[(.*?)\]\s*:\s*list \(bool \* bool\)", so, re.S)
+    if rc != 0 or not m1 or not m2:
+        v.oblige(False)
+        v.violation("c18-coq-model", "numba printer model could not be evaluated: " + se[-300:], {}, no_input=True)
+        return st
+    rendered = m1.group(1).replace("\n", " ").split("@@")
+    flags = [(a.strip() == "true", b.strip() == "true") for a, b in re.findall(r"\((true|false),\s*(true|false)\)", m2.group(1))]
+    names = lambda n: f"x{n}"   # noqa: E731
+    for tup, text, model, (wf, noc) in zip(tuples, texts, rendered, flags):
+        if not wf or not noc:
+            continue          # complex literals are spelled by Python's repr ((-0.5+0.25j), 2j): compared by execution only
+        st["inside_fragment"] += 1
+        try:
+            got = py_tree(ast.parse(text.strip(), mode="eval").body)
+            want = p_c16.named(pcanon_py(tup), names)
+            tree_ok = got == want
+        except Exception as e:  # noqa: BLE001
+            tree_ok = False
+            got = f"<{type(e).__name__}: {e}>"
+        tok_ok = True
+        if noc:
+            # function names: the model carries the UFL name, the text the numpy name
+            real = py_tokens(text)
+            mt = " ".join(t for t in model.split(" "))
+            tok_ok = re.sub(r"f:[A-Za-z_0-9]+", "f:", mt) == re.sub(r"f:[A-Za-z_0-9]+", "f:", real)
+        v.oblige(tok_ok and tree_ok)
+        st["token_equal"] += 1 if tok_ok else 0
+        st["python_parser_agrees"] += 1 if tree_ok else 0
+        if not (tok_ok and tree_ok):
+            v.violation(f"c18-printer:{text[:50]}", f"numba text {text!r} does not read back as the AST under Python's grammar, or differs from the printer model (model tokens {model!r})",
+                        {"text": text, "tree": str(tup), "model_tokens": model, "python_reads": str(got)})
+    return st
+
+
 def run(v, tier, seed, g):
+    printer_stats = printer_correspondence(v, tier, seed)
     big = ("hex", "tet_p2", "n1curl_tet", "sumfact_hex")
     cases = [c for c in corpus.PINNED if tier != "quick" or not any(b in c["id"] for b in big)] + EXTRA
     if tier != "quick":
@@ -118,7 +293,7 @@ def run(v, tier, seed, g):
     cov = {"checker_cmd": f"./check C18 --tier {tier}", "trusted_base": ["CPython executing the generated module with numba.carray replaced by numpy views of the declared extent (harness/nbrun.py)",
                                                                           "gcc -O0 for the C kernels; identical random inputs; tolerance 1e-11 (2e-4 single precision)",
                                                                           "Coq kernel (PyFmt theorems over the precedence table regenerated by tr_prec.py)"],
-           "programs": st["cases"], "disagreements_checked": tot, "evaluations": tot, "distinct_nontrivial": len(distinct), "by_status": st,
+           "programs": st["cases"], "disagreements_checked": tot, "evaluations": tot, "distinct_nontrivial": len(distinct), "by_status": st, "printer_correspondence": printer_stats,
            "rule": "every accepted case is generated for C and for numba; each kernel pair is run on the same inputs; descriptor classes compared with the C descriptors / the user's expression",
            "axioms_under_property_theorems": g.get("axioms", [])}
     return v.finish("proof", cov, ["forms sampled; numba.cfunc compilation itself is not exercised in the quick tier"])
